@@ -162,7 +162,7 @@ func multiLevel(st CaseStats) bool { return st.MaxHeight >= 1 && st.HeightChange
 // famMap — C01: results, sizes, heights and full iterations of random histories, compared with
 // the Lean model op by op and with a Go map + sort oracle.
 func famMap(f *FamCtx) {
-	f.Report.Rule = "random histories (insert/update/equal-upsert/delete hit+miss+wrong value/get/iter/stat/clone/persist/reload) over key universes of 3..200 keys, all key kinds, value kinds, bf in {2,3,4,16}, both node formats, cache none/big/tiny; distinct = distinct (cfg, op list); non-trivial = reached height >= 1 and changed height at least once"
+	f.Report.Rule = "random histories (insert/update/equal-upsert/delete hit+miss+wrong value/get/iter/stat/clone/persist/reload) over key universes of 3..200 keys, all key kinds, value kinds, bf in {2,3,4,16}, both node formats, cache none/big/tiny; thorough tier adds EVERY history of length 4 over a four-key universe (insert with two values / delete) for six layer assignments at bf 2 and 3, each with iteration, persist, reload; distinct = distinct (cfg, op list); non-trivial = reached height >= 1 and changed height at least once"
 	n := f.N(150, 6000)
 	f.Gen = func() Case {
 		cfg := RandCfg(f.Rand)
@@ -179,4 +179,66 @@ func famMap(f *FamCtx) {
 	for i := 0; i < n; i++ {
 		f.RunTreeCase(f.Gen(), mapRunner, multiLevel)
 	}
+	if f.Tier == "thorough" {
+		exhaustiveSmall(f)
+	}
+}
+
+// exhaustiveSmall (thorough tier): EVERY history of a fixed small length over a four-key
+// universe — insert with two values, delete with the value last written — for several
+// assignments of layers to the keys, at branch factors 2 and 3, each followed by iteration and a
+// persist / reload / iteration.  Small-scope completeness next to the random histories.
+func exhaustiveSmall(f *FamCtx) {
+	const length = 4
+	for combo := 0; combo < 6; combo++ {
+		cfg := Cfg{BF: uint(2 + combo%2), Fmt: pick(f.Rand, []string{"bin", "json"}), KK: "vk", VKind: "u64", Cache: "none"}
+		// four keys with layers drawn from 0..3 (explicit layers through the user Key type)
+		var keys []uint64
+		for i := 0; i < 4; i++ {
+			keys = append(keys, uint64(i+1)<<8|uint64(f.Rand.Intn(4)))
+		}
+		// operation alphabet: for each key, ins v=0, ins v=1, del (value tracked while generating)
+		type step struct{ kind, key int }
+		var alphabet []step
+		for k := range keys {
+			alphabet = append(alphabet, step{0, k}, step{1, k}, step{2, k})
+		}
+		idx := make([]int, length)
+		for {
+			ops := []string{"new 0"}
+			cur := map[uint64]uint64{}
+			for _, a := range idx {
+				st := alphabet[a]
+				k := keys[st.key]
+				switch st.kind {
+				case 0, 1:
+					ops = append(ops, opIns(0, k, uint64(st.kind)))
+					cur[k] = uint64(st.kind)
+				default:
+					v, ok := cur[k]
+					if !ok {
+						v = 1 // a delete of an absent key must fail without effect
+					}
+					ops = append(ops, opDel(0, k, v))
+					delete(cur, k)
+				}
+			}
+			ops = append(ops, "iter 0", "stat 0", "root 0 0", "load 0 1", "iter 1", "stat 1")
+			f.RunTreeCase(Case{cfg, ops}, mapRunner, func(CaseStats) bool { return false })
+			// next sequence
+			i := length - 1
+			for i >= 0 {
+				idx[i]++
+				if idx[i] < len(alphabet) {
+					break
+				}
+				idx[i] = 0
+				i--
+			}
+			if i < 0 {
+				break
+			}
+		}
+	}
+	f.Report.Stats = map[string]interface{}{"exhaustive_small_scope": "6 layer assignments x all 12^4 histories of length 4 over 4 keys"}
 }
